@@ -56,3 +56,57 @@ Qed.
 
 Theorem lookup_guard_safe idx n : match lookup_guard idx n with Some i => 0 <= i < n | None => idx < 0 \/ n <= idx end.
 Proof. unfold lookup_guard. destruct (Z.leb_spec 0 idx), (Z.ltb_spec idx n); cbn; lia. Qed.
+
+(* ---------- checkRow ---------- *)
+Lemma fold_max_ge : forall cols c, In c cols -> c <= fold_right Z.max 0 cols.
+Proof.
+  induction cols as [|x r IH]; intros c Hin; [destruct Hin|].
+  cbn [fold_right]. destruct Hin as [->|Hin]; [lia|]. specialize (IH c Hin). lia.
+Qed.
+
+Lemma place_cells_ok : forall cols k target, (forall c, In c cols -> 1 <= c <= Z.of_nat (length target)) ->
+  exists t, place_cells cols k target = Ok t /\ length t = length target.
+Proof.
+  induction cols as [|col rest IH]; intros k target H; cbn [place_cells].
+  - eexists; split; reflexivity.
+  - pose proof (H col (or_introl eq_refl)) as Hc.
+    destruct ((1 <=? col) && (col <=? Z.of_nat (length target))) eqn:E; [|lia].
+    assert (L : length (firstn (Z.to_nat (col - 1)) target ++ Some k :: skipn (Z.to_nat col) target) = length target).
+    { rewrite app_length, firstn_length. cbn [length]. rewrite skipn_length. lia. }
+    destruct (IH (S k) _ ltac:(intros c Hin; rewrite L; apply H; now right)) as (t & Ht & Lt).
+    exists t. split; [exact Ht|]. rewrite Lt. exact L.
+Qed.
+
+Lemma assign_cols_pos : forall cells rc, 0 <= rc -> (forall c, In (Some c) cells -> 1 <= c) ->
+  forall c, In c (assign_cols cells rc) -> 1 <= c.
+Proof.
+  induction cells as [|x rest IH]; intros rc Hrc Hpos c Hin; [destruct Hin|].
+  cbn [assign_cols] in Hin. destruct x as [col|].
+  - destruct Hin as [<-|Hin]; [apply Hpos; now left|].
+    apply (IH (if rc + 1 <? col then col else rc + 1)); [destruct (rc + 1 <? col) eqn:E; lia| |exact Hin].
+    intros c' Hc'. apply Hpos. now right.
+  - destruct Hin as [<-|Hin]; [lia|]. apply (IH (rc + 1)); [lia| |exact Hin]. intros c' Hc'. apply Hpos. now right.
+Qed.
+
+(* with the width taken as the largest column of the row, no list of cell references makes checkRow index outside
+   the row it allocated, and the rebuilt row has exactly that width *)
+Theorem check_row_safe cells : (forall c, In (Some c) cells -> 1 <= c) ->
+  exists t, check_row cells = Ok t /\
+    (length t = length cells \/ Z.of_nat (length t) = width_max (assign_cols cells 0)).
+Proof.
+  intros Hpos. unfold check_row, check_row_with.
+  destruct (Z.of_nat (length cells) <? width_max (assign_cols cells 0)) eqn:E.
+  - destruct (place_cells_ok (assign_cols cells 0) O (repeat None (Z.to_nat (width_max (assign_cols cells 0))))) as (t & Ht & Lt).
+    + intros c Hin. rewrite repeat_length. split; [apply (assign_cols_pos cells 0 ltac:(lia) Hpos c Hin)|].
+      pose proof (fold_max_ge _ _ Hin). unfold width_max. lia.
+    + exists t. split; [exact Ht|]. right. rewrite Lt, repeat_length. unfold width_max in *. lia.
+  - eexists. split; [reflexivity|]. left.
+    assert (G : forall n k, length (ident_placement n k) = n) by (induction n; intros; cbn; [reflexivity|rewrite IHn; reflexivity]).
+    apply G.
+Qed.
+
+(* the rule before the repair (width = column of the last cell) is refuted by a row whose cells are not in
+   ascending order: <c r="E1"/><c r="C1"/> *)
+Lemma check_row_before_repair_refuted : exists cells, (forall c, In (Some c) cells -> 1 <= c) /\
+  check_row_before_repair cells = Panic 1.
+Proof. exists [Some 5; Some 3]. split; [intros c [E|[E|[]]]; inversion E; lia|vm_compute; reflexivity]. Qed.
